@@ -66,6 +66,7 @@ func (t *Template) exec(ctx hctx.Context, depth int) (string, error) {
 	ev := compiler{
 		ctx:     ctx,
 		program: t.program,
+		source:  t.Input,
 		exec:    &execution{},
 		depth:   depth,
 	}
